@@ -12,6 +12,8 @@ import numpy as np
 from checks import _transforms as H
 
 ID = "C01"
+# computational entry points whose results are watched by the engine's retained-result oracle (mc/explore.py)
+RETAIN = [('hydrodiy.stat.transform', 'Transform.forward'), ('hydrodiy.stat.transform', 'Transform.backward'), ('hydrodiy.stat.transform', 'Transform.backward_censored')]
 RULE = ("every configuration (class x constructor options x parameter/constant lattice incl. all "
         "bounds, defaults and branch values lam in {0, +-1e-11, +-1e-9, 2, 2+-1e-9, 2+-1e-4,..}) is "
         "instantiated through get_transform(**kw), attribute, item and params.values assignment "
